@@ -111,7 +111,12 @@ def run(ctx):
                   else [("inorder", True), ("loss", True), ("dup", False)]) if ctx.quick else \
                  [(wl, fb) for wl in ("inorder", "loss", "dup") for fb in (True, False)]
         for wl, fb in combos:
-            scripts.append(script(rng, [k], wl, fb, n if k not in TIMED or not ctx.quick else 2000, k in TIMED))
+            nn = n if k not in TIMED or not ctx.quick else 2000
+            if k == "jitter" and wl in ("loss", "dup"):
+                nn = min(nn, 4000)      # (known finding: the buffer grows and its sorted insert is quadratic)
+            if k == "rtpfb" and not fb:
+                nn = min(nn, 20000)     # (known finding: grows without feedback)
+            scripts.append(script(rng, [k], wl, fb, nn, k in TIMED))
     for k in ("stats", "rsend", "rrecv", "pdsend"):             # state kept per feedback message
         scripts.append(script_rtcp(rng, [k], 20000 if ctx.quick else 200000))
     for k in ("pacing", "ccleaky", "nackresp", "flexfec"):      # steady traffic next to a stream whose transport keeps failing
